@@ -282,6 +282,64 @@ def _attr_spans(toks, groups):
             yield i, c, toks[i + 2].text
 
 
+SEQ_REWRITES = []   # (rule, [tokens...], replacement_text) registered per unit by `//@ r3`
+
+
+def register_r3(repo, spec, log):
+    """//@ r3 <accessor path> | <expected body> | <struct path> | f1,f2 | <FieldType> | <method> | <replacement>
+    Rule R3: a one-line accessor returning `impl Iterator` is inlined at call sites `.field.method()`.
+    Mechanical side conditions re-checked on every run: the accessor body in /repo is exactly the
+    expected expression, and each listed field of the struct has the stated type."""
+    parts = [x.strip() for x in spec.split("|")]
+    if len(parts) != 7:
+        raise Lost("bad r3 directive: %s" % spec)
+    acc, body, st, fields, ftype, method, repl = parts
+    ap = [x.strip() for x in acc.split("::")]
+    sf = load(os.path.join(repo, ap[0]))
+    it = find_item(sf, ap[1:])[-1]
+    fa = FnAnatomy(sf.text(it.start, it.end))
+    got = " ".join(t.text for t in fa.toks[fa.body_open + 1:fa.body_close])
+    want = " ".join(t.text for t in tokenize(body))
+    if got != want:
+        raise Lost("R3 side condition failed: body of %s is `%s`, expected `%s`" % (acc, got, want))
+    sp = [x.strip() for x in st.split("::")]
+    sf2 = load(os.path.join(repo, sp[0]))
+    sit = find_item(sf2, sp[1:])[-1]
+    T = sf2.toks
+    for f in fields.split(","):
+        f = f.strip()
+        ok = False
+        for i in range(sit.body_open + 1, sit.body_close - 2):
+            if T[i].text == f and T[i + 1].text == ":" and T[i + 2].text == ftype and T[i + 3].text in (",", "}"):
+                ok = True
+        if not ok:
+            raise Lost("R3 side condition failed: field %s of %s is not of type %s" % (f, st, ftype))
+        SEQ_REWRITES.append(("R3-inline-accessor", [".", f, ".", method, "(", ")"], ".%s.%s()" % (f, repl)))
+    log.append({"rule": "R3-inline-accessor", "before": "%s (body `%s`) on fields %s: %s of %s" % (acc, got, fields, ftype, st),
+                "after": ".<field>.%s()  ->  .<field>.%s()" % (method, repl), "where": "unit-level rule"})
+
+
+def rule_r2(text, var, log):
+    """R2: reference pattern `&v` in a pattern -> `v`, later uses of `v` -> `(*v)` (Copy scalars only;
+    Verus does not support reference patterns).  Type errors surface in rustc."""
+    T = tokenize(text)
+    ed = Edits(text)
+    start = None
+    for i, t in enumerate(T):
+        if t.text == "&" and i + 1 < len(T) and T[i + 1].text == var and T[i + 1].kind == "id" and i > 0 and T[i - 1].text in ("(", ","):
+            start = i
+            break
+    if start is None:
+        raise Lost("R2: pattern `&%s` not found" % var)
+    ed.replace(T[start].start, T[start].end, "")
+    n = 0
+    for j in range(start + 2, len(T)):
+        if T[j].text == var and T[j].kind == "id" and T[j - 1].text not in (".", "::"):
+            ed.replace(T[j].start, T[j].end, "(*%s)" % var); n += 1
+    log.append({"rule": "R2-ref-pattern", "before": "&%s (pattern), %d later uses of %s" % (var, n, var), "after": "%s, (*%s)" % (var, var)})
+    return ed.apply()
+
+
 def rule_pass(text, log, cfgset):
     toks = tokenize(text)
     groups = match_groups(toks)
@@ -299,6 +357,13 @@ def rule_pass(text, log, cfgset):
             rec("R6-drop-attr", toks[i].start, toks[c].end, "")
             consumed.update(range(i, c + 1))
     for i, t in enumerate(toks):
+        if i in consumed:
+            continue
+        for rname, seq, repl in SEQ_REWRITES:
+            if t.text == seq[0] and i + len(seq) <= n and all(toks[i + k].text == seq[k] for k in range(len(seq))):
+                rec(rname, t.start, toks[i + len(seq) - 1].end, repl)
+                consumed.update(range(i, i + len(seq)))
+                break
         if i in consumed:
             continue
         # R1 endian conversions -> trait shims (pure method rename)
@@ -463,7 +528,7 @@ class FnAnatomy:
 CLAUSE_KW = ("extract", "ret", "requires", "ensures", "decreases", "loop", "before", "after", "head",
              "attr", "inherent", "end", "returns", "opens_invariants", "no_unwind", "sigattr", "tail",
              "closure", "hoist", "drop_nested", "param_mut", "as_trait", "implhdr", "strip_body_attr",
-             "cfg", "mirror")
+             "cfg", "mirror", "r2", "r3")
 
 
 def parse_block(lines):
@@ -624,6 +689,9 @@ def splice_fn(text, clauses, log, where):
 
 
 def transfer_mirror(rtext, mirror, log, where, variant="main"):
+    if variant.startswith("exit:"):
+        names = variant[5:].split(",")
+        variant = "exit" if FnAnatomy(rtext).name in names else "main"
     """Transfer the annotations of an *annotated mirror* onto the real (post-rule) text.
 
     The mirror is the function as Verus should see it: the repository's tokens plus annotations,
@@ -737,6 +805,8 @@ def process_block(repo, clauses, log, items_log, cfgset, variant="main"):
     where = "%s :: %s" % (relfile, " :: ".join(segs))
     rec = {"file": relfile, "path": " :: ".join(segs), "lines": [sf.line_of(it.start), sf.line_of(it.end - 1)],
            "sha256": sha(verb), "kind": it.kind}
+    if it.kind == "fn":
+        rec["idents"] = sorted({t.text for t in sf.toks[it.start:it.end] if t.kind == "id"})
     items_log.append(rec)
     sublog = []
     text = verb
@@ -748,6 +818,9 @@ def process_block(repo, clauses, log, items_log, cfgset, variant="main"):
         if k == "strip_body_attr":
             pass
     text = rule_pass(text, sublog, cfgset)
+    for k, r in clauses:
+        if k == "r2":
+            text = rule_r2(text, r.strip(), sublog)
     if it.kind in ("const", "static"):
         text = const_static_lifetime(text, sublog)
     obl = {}
@@ -762,6 +835,8 @@ def process_block(repo, clauses, log, items_log, cfgset, variant="main"):
                 text = r + "\n" + text
     elif it.kind == "fn":
         cl = list(clauses[1:])
+        if variant.startswith("exit:"):
+            variant = "exit" if FnAnatomy(text).name in variant[5:].split(",") else "main"
         if any(k in ("requires", "ensures") for k, _ in cl):
             if variant == "reach":
                 cl.append(["head", "proof { assert(false); }"])
@@ -855,24 +930,32 @@ def drop_nested_fns(text, names, log):
 
 def assemble(template_path, repo, cfgset=("debug_assertions",), variant="main"):
     """Returns (assembled_text, info) ; info = {items, rewrites, linemap}"""
-    with open(template_path, encoding="utf-8") as f:
-        lines = f.read().split("\n")
+    root = os.path.dirname(os.path.dirname(os.path.abspath(template_path)))
+    includes = []
+
+    def expand(path, depth=0):
+        res = []
+        with open(path, encoding="utf-8") as f:
+            for ln in f.read().split("\n"):
+                if ln.lstrip().startswith("//@ include "):
+                    inc = os.path.join(root, ln.lstrip()[len("//@ include "):].strip())
+                    includes.append(os.path.relpath(inc, root))
+                    if depth > 8:
+                        raise Lost("include depth")
+                    res.extend(expand(inc, depth + 1))
+                else:
+                    res.append(ln)
+        return res
+    lines = expand(template_path)
+    del SEQ_REWRITES[:]
     out = []
     log, items_log = [], []
     i = 0
     blocks = 0
-    includes = []
     linemap = []   # (first_line, last_line, where) in assembled text
     while i < len(lines):
         ln = lines[i]
         st = ln.lstrip()
-        if st.startswith("//@ include "):
-            inc = os.path.join(os.path.dirname(os.path.dirname(os.path.abspath(template_path))), st[len("//@ include "):].strip())
-            with open(inc, encoding="utf-8") as f:
-                out.append(f.read().rstrip("\n"))
-            includes.append(os.path.relpath(inc, os.path.dirname(os.path.dirname(os.path.abspath(template_path)))))
-            i += 1
-            continue
         if st.startswith("//@"):
             blk = []
             mirrors = {}
@@ -894,6 +977,13 @@ def assemble(template_path, repo, cfgset=("debug_assertions",), variant="main"):
             # split into extract-blocks
             cur = []
             groups = []
+            blk2 = []
+            for b in blk:
+                if b.strip().startswith("r3 "):
+                    register_r3(repo, b.strip()[3:], log)
+                else:
+                    blk2.append(b)
+            blk = blk2
             for b in blk:
                 if b.strip().startswith("extract"):
                     if cur:
